@@ -484,7 +484,10 @@ func storedJSONAny(path string, id common.Hash) (string, error) {
 	d := rawDB(path)
 	defer d.Close()
 	var js string
-	err := d.QueryRow("SELECT signed_certificate FROM certificate_info WHERE certificate_id = ? UNION ALL SELECT signed_certificate FROM certificate_info_history WHERE certificate_id = ? LIMIT 1", id.Hex(), id.Hex()).Scan(&js)
+	// several attempts can share an id (byte-identical retries): the copy of the latest one is the current row if it has
+	// that id, else the replaced row with the highest retry count
+	err := d.QueryRow("SELECT signed_certificate FROM (SELECT signed_certificate, retry_count, 1 AS cur FROM certificate_info WHERE certificate_id = ? "+
+		"UNION ALL SELECT signed_certificate, retry_count, 0 AS cur FROM certificate_info_history WHERE certificate_id = ?) ORDER BY cur DESC, retry_count DESC LIMIT 1", id.Hex(), id.Hex()).Scan(&js)
 	return js, err
 }
 
